@@ -82,7 +82,11 @@ func c16Tx(r *kit.Rng, salt uint32) *wire.MsgTx {
 		tx.AddTxIn(&wire.TxIn{PreviousOutPoint: wire.OutPoint{Hash: h, Index: r.U32()}, SignatureScript: r.Bytes(r.Range(0, 30)), Sequence: r.U32()})
 	}
 	for i := 0; i < nout; i++ {
-		out := &wire.TxOut{Value: int64(r.Intn(1 << 30)), PkScript: r.Bytes(r.Range(0, 40))}
+		slen := r.Range(0, 40)
+		if r.Chance(1, 6) {
+			slen = r.Range(150, 300) // around the 1-byte / 3-byte length boundary, with or without a token prefix
+		}
+		out := &wire.TxOut{Value: int64(r.Intn(1 << 30)), PkScript: r.Bytes(slen)}
 		if len(out.PkScript) > 0 && out.PkScript[0] == wire.PREFIX_BYTE {
 			out.PkScript[0] = 0x51
 		}
@@ -225,7 +229,7 @@ func (s *c16) Gen(r *kit.Rng) (kit.Op, bool) {
 			return op, true
 		}
 		blk := c16Block(r, s.st)
-		ctor := []int{0, 1, 2, 3, 5, 6}[r.Intn(6)]
+		ctor := []int{0, 1, 2, 3, 5, 6, 7}[r.Intn(7)]
 		op := kit.Op{K: "block", D: kit.Hex(serBlock(blk)), N: []int64{int64(ctor)}}
 		if ctor == 2 {
 			op.S = simio.DrawBenign(r).String()
@@ -243,7 +247,7 @@ func (s *c16) Gen(r *kit.Rng) (kit.Op, bool) {
 	// a further wrapper next to the existing ones
 	if len(s.objs) > 0 && len(s.objs) < 3 && r.Chance(1, 8) {
 		blk := c16Block(r, s.st)
-		ctor := []int{0, 1, 2, 3, 5, 5, 6}[r.Intn(7)]
+		ctor := []int{0, 1, 2, 3, 5, 5, 6, 7}[r.Intn(8)]
 		op := kit.Op{K: "block", D: kit.Hex(serBlock(blk)), N: []int64{int64(ctor)}}
 		if ctor == 2 {
 			op.S = simio.DrawBenign(r).String()
@@ -289,6 +293,10 @@ func (s *c16) Gen(r *kit.Rng) (kit.Op, bool) {
 	case 10:
 		if r.Chance(1, 2) {
 			return kit.Op{K: "b.height", H: oi}, true
+		}
+		if r.Chance(1, 2) {
+			// small heights: different wrappers get EQUAL heights
+			return kit.Op{K: "b.setheight", H: oi, N: []int64{int64(r.Intn(3))}}, true
 		}
 		return kit.Op{K: "b.setheight", H: oi, N: []int64{int64(int32(r.U32()))}}, true
 	case 11:
@@ -366,6 +374,20 @@ func (s *c16) Apply(o kit.Op) *kit.Violation {
 				return kit.V("construct:NewBlockFromReader-failed-on-benign-reader", "bytes.Buffer reader gave error %v", err)
 			}
 			s.st.Probe("block-from-reused-bytes.Buffer")
+			s.blk, s.own = b, b.MsgBlock()
+		case 7:
+			// from a *bytes.Reader that is NOT at offset 0: a framed stream
+			// (some header bytes were consumed first), followed by more data
+			pre := []byte{0xe3, 0xe1, 0xf3, 0xe8, 1, 2, 3, 4, 5, 6, 7}
+			stream := append(append(append([]byte(nil), pre...), raw...), 0xde, 0xad, 0xbe, 0xef)
+			rd := bytes.NewReader(stream)
+			hdr := make([]byte, len(pre))
+			_, _ = rd.Read(hdr)
+			b, err := bchutil.NewBlockFromReader(rd)
+			if err != nil || b == nil {
+				return kit.V("construct:NewBlockFromReader-failed-on-benign-reader", "bytes.Reader positioned after a frame header gave error %v", err)
+			}
+			s.st.Probe("block-from-reader-at-nonzero-offset")
 			s.blk, s.own = b, b.MsgBlock()
 		case 6:
 			// from a bytes.Reader over a slice the caller overwrites afterwards
